@@ -524,8 +524,64 @@ def check_sizes(s):
                  key="g1-obs-size", detail=f"constant {cval}, parts sum {total}, annotation {dim}", necessary_for="observation sizes are computed consistently with what is concatenated")
 
 
+def check_declared_boxes(s, rule="C02.6", classes=None):
+    """A declared Box must have low <= high, or nothing is a member of it (no sampled action is accepted, no observation is inside).
+    Decided for the shapes the environments use: the two columns of one actuator-range array (low = X[:, 0], high = X[:, 1]), a
+    symmetric box (low = -H, high = H with H a positive multiple of one term: `full(n, inf)`, an array of thresholds, `inf`), and
+    literal bounds. Any other shape is counted as undecided, not reported."""
+    from ..norm import Normalizer as _N, pneg
+    P = s.prog
+    if classes is None:
+        from .C17 import MUJOCO
+        classes = list(MUJOCO) + ["G1Locomotion", "G1Standing", "G1Standup", "CartPole", "MountainCar", "ContinuousMountainCar", "Acrobot", "Pendulum"]
+    b = s.builder(inline={"_init_common"})
+    nz = _N(b)
+    n = 0
+    for cls in classes:
+        if not P.by_name.get(cls):
+            raise AnalysisError(f"anchor class {cls} vanished")
+        loc = s.loc(cls, "__init__")
+        seen = set()
+        for p in live(s.paths(b, cls, "__init__")):
+            for attr in ("action_space", "observation_space"):
+                v = p.self_attrs.get(attr)
+                if not (isinstance(v, tuple) and v and v[0] == "record" and v[1].endswith(".Box")):
+                    continue
+                f = fields(v)
+                lo, hi = f.get("arg:low"), f.get("arg:high")
+                if lo is None or hi is None or (attr, lo, hi) in seen:
+                    continue
+                seen.add((attr, lo, hi))
+                plo, phi = nz.poly(lo), nz.poly(hi)
+                verdict = None
+                # literal bounds
+                if (not plo or list(plo) == [()]) and (not phi or list(phi) == [()]):
+                    verdict = (plo.get((), 0) <= phi.get((), 0), "literal bounds with low <= high")
+                # the two columns of one array
+                elif isinstance(lo, tuple) and isinstance(hi, tuple) and lo and hi and lo[0] == "sub" and hi[0] == "sub" and lo[1] == hi[1]:
+                    col = lambda ix: ix[1][1][1] if isinstance(ix, tuple) and ix[0] == "tuple" and len(ix[1]) == 2 and ix[1][1][0] == "const" else None  # noqa: E731
+                    c0, c1 = col(lo[2]), col(hi[2])
+                    if c0 is not None and c1 is not None:
+                        verdict = ((c0, c1) == (0, 1), "low / high are columns 0 / 1 of the same range array")
+                # symmetric box: low = -H, high = +H
+                elif plo and plo == pneg(phi):
+                    pos = all(c > 0 for c in phi.values())
+                    neg = all(c < 0 for c in phi.values())
+                    if pos or neg:
+                        verdict = (pos, "symmetric box: high is the positive term, low its negation")
+                if verdict is None:
+                    s.undecide(rule, f"{cls}.{attr}", f"bounds of another shape: low={show(lo, maxlen=80)} high={show(hi, maxlen=80)}")
+                    continue
+                n += 1
+                s.ob(rule, f"{cls}.__init__.{attr}", verdict[0], f"the declared {attr} is a well-ordered Box ({verdict[1]})", loc, key=f"box-ordered-{attr}",
+                     detail=f"low={show(lo, maxlen=120)}; high={show(hi, maxlen=120)}",
+                     necessary_for="sampled actions are members of the declared action space and observations lie within the declared bounds (an inverted Box has no members)")
+    return n
+
+
 def check(s):
     check_bounds(s)
+    check_declared_boxes(s)
     check_kinds(s)
     check_purity(s)
     check_sizes(s)
@@ -539,5 +595,5 @@ def check(s):
     check_rescale(s, "C02.5")
     check_constructors(s, "C02.5")
     check_delegation(s, "C02.5", ["observation", "action_mask", "initial"])
-    for r_, n_ in (("C02.1", 14), ("C02.2", 80), ("C02.3", 300), ("C02.4", 20), ("C02.5", 60)):
+    for r_, n_ in (("C02.1", 14), ("C02.2", 80), ("C02.3", 300), ("C02.4", 20), ("C02.5", 60), ("C02.6", 20)):
         s.floor(r_, n_)
